@@ -262,12 +262,13 @@ def run_programs(binp, programs, S=None, shim=True, timeout=900):
         end = next((r for r in rs if r["kind"] == "progend"), None)
         outs = [r["out"] for r in rs if r["kind"] == "op"]
         counts = [r["fds"] - start["fds"] for r in rs if r["kind"] == "op"] if start else []
-        ledger = None
+        ledger, nocloexec = None, []
         if trace and start is not None:
             cut = C.ops_between(trace, "op %s 0" % pid, "endop %s %d" % (pid, len(ops) - 1)) or []
             first = next((q for q in trace if q["call"] == "mark" and q.get("label") == "op %s 0" % pid), None)
             ledger = project_ledger(([first] if first else []) + cut)
-        res.append({"prog": pid, "ops": ops, "outs": outs, "counts": counts, "ledger": ledger, "start": start, "end": end,
+            nocloexec = [q for q in cut if q["call"] in ("socketpair", "install", "dup", "accept", "socket", "shm_open") and q.get("cloexec") == 0]
+        res.append({"prog": pid, "ops": ops, "outs": outs, "counts": counts, "ledger": ledger, "nocloexec": nocloexec, "start": start, "end": end,
                     "complete": end is not None and len(outs) == len(ops), "stderr": err if end is None else ""})
     return res
 
